@@ -18,10 +18,11 @@ func init() {
 				Name: "helper-kernel", Pkg: pkgHelper, Func: "VH_C01Kernel",
 				Quick: []int{3, 2}, Thorough: []int{4, 2},
 				Bounds: func(a []int) string {
-					return fmt.Sprintf("replicas r in [0,%d] (symbolic), up to %d delete slots each an arbitrary int32 (duplicates, negatives, extremes), plus nil/absent/12 malformed annotation values (syntax errors and well-formed lists with an element that is not an int32); every iteration order of the slot set (maps of 2..3 entries) inside GetDeleteSlots, GetMaxReplicaCountAndDeleteSlots and sets.UnsortedList", a[0], a[1])
+					return fmt.Sprintf("replicas r in [0,%d] (symbolic), up to %d delete slots each an arbitrary int32 (duplicates, negatives, extremes), plus nil/absent/12 malformed annotation values (syntax errors and well-formed lists with an element that is not an int32); every iteration order of the slot set (maps of 2..3 entries) inside GetDeleteSlots, GetMaxReplicaCountAndDeleteSlots and sets.UnsortedList; after all helpers ran once, the same annotation text on a second object is decoded again and its ordinals computed at replicas %d (results must not depend on the earlier calls)", a[0], a[1], a[0])
 				},
 				Asserts: []string{"pod ordinals equal the desired set", "exactly r ordinals", "max ordinal agrees", "min ordinal agrees",
-					"effective slots are the slots inside the range", "desired set is the range minus the effective slots", "input slot set not mutated"},
+					"effective slots are the slots inside the range", "desired set is the range minus the effective slots", "input slot set not mutated",
+					"decoding does not depend on earlier calls", "pod ordinals at a larger replica count do not depend on earlier calls"},
 			},
 			{
 				Name: "helper-kernel-three-slots", Pkg: pkgHelper, Func: "VH_C01Kernel", NoMapOrder: true,
@@ -29,7 +30,8 @@ func init() {
 				Bounds: func(a []int) string {
 					return fmt.Sprintf("replicas r in [0,%d] (symbolic), up to %d delete slots each an arbitrary int32, plus nil/absent/malformed values; maps visited in insertion order", a[0], a[1])
 				},
-				Asserts: []string{"pod ordinals equal the desired set", "exactly r ordinals", "max ordinal agrees", "min ordinal agrees"},
+				Asserts: []string{"pod ordinals equal the desired set", "exactly r ordinals", "max ordinal agrees", "min ordinal agrees",
+					"decoding does not depend on earlier calls", "pod ordinals at a larger replica count do not depend on earlier calls"},
 			},
 		},
 		Assumptions: []string{
@@ -171,6 +173,9 @@ func init() {
 			step("step", []int{1, 2, 1, oThreeRevs | oStatusSym, mC12}, []int{2, 2, 1, oThreeRevs | oStatusSym, mC12},
 				[]string{"0 <= currentReplicas <= replicas", "observedGeneration is the generation reconciled"},
 				[]string{"status written", "currentRevision advanced", "quiescent reconcile with a status write", "quiescent reconcile without a status write"}),
+			step("step-two-pods-ordered", []int{2, 1, 1, oPolicyOrdered | oStatusSym, mC12}, []int{2, 1, 1, oPolicyOrdered | oThreeRevs | oStatusSym, mC12},
+				[]string{"0 <= currentReplicas <= replicas", "observedGeneration is the generation reconciled"},
+				[]string{"status written", "quiescent reconcile with a status write", "quiescent reconcile without a status write"}),
 			step("step-status-conflict", []int{1, 1, 1, oThreeRevs | oStatusSym | oStatusConflict, mC12}, []int{1, 2, 1, oThreeRevs | oStatusSym | oStatusConflict, mC12},
 				[]string{"observedGeneration is the generation reconciled"},
 				[]string{"fault injected at set.updateStatus"}),
@@ -301,13 +306,13 @@ func init() {
 	register(&spec{
 		ID: "C08", Title: "Update revision mirrors the template; scaling edits never cause a restart",
 		Runs: []runSpec{
-			{Name: "revisions", Pkg: pkgCtl, Func: "VH_Revisions", Quick: []int{2, 3}, Thorough: []int{3, 3},
+			{Name: "revisions", Pkg: pkgCtl, Func: "VH_Revisions", Quick: []int{2, 3 | 32}, Thorough: []int{3, 3 | 32},
 				Bounds: func(a []int) string {
-					return fmt.Sprintf("%d stored revisions with data in {A,B,C} and arbitrary distinct revision numbers in [1,2^40), template in {A,B,C}, collision count nil/0/1/2, optional engineered name collision with a revision of different data, one follow-up reconcile after each of 5 non-template edits", a[0])
+					return fmt.Sprintf("%d stored revisions with data in {A,B,C} and arbitrary distinct revision numbers in [1,2^40), template in {A,B,C}, collision count nil/0/1/2, optional engineered name collision with a revision of different data, stored status.updateRevision empty or naming any stored revision (stale status), one follow-up reconcile after each of 5 non-template edits", a[0])
 				},
 				Asserts: []string{"an unchanged template writes no revision", "a rollback renumbers the old revision instead of creating one", "a new template creates a revision",
 					"status.updateRevision names a stored revision of the current template", "a colliding revision of different data is never overwritten", "a non-template edit keeps the update revision"},
-				Covers: []string{"template unchanged", "rollback to an older revision", "new template", "engineered name collision", "colliding revision carries the same hash label", "non-template edit reconciled"}},
+				Covers: []string{"template unchanged", "rollback to an older revision", "new template", "engineered name collision", "colliding revision carries the same hash label", "non-template edit reconciled", "stored status names a stored revision as the update revision"}},
 			{Name: "revisions-small-history-limit", Pkg: pkgCtl, Func: "VH_Revisions", Quick: []int{2, 6}, Thorough: []int{3, 6},
 				Bounds: func(a []int) string {
 					return fmt.Sprintf("as above with revisionHistoryLimit in {0,1}: %d stored revisions, so that history trimming runs in the same reconcile that creates, re-uses or renumbers the update revision", a[0])
